@@ -48,11 +48,11 @@ def header_variants(work):
             a = open(os.path.join(sc, 'include', 'ffsm2', 'machine.hpp'), 'rb').read() if rc == 0 else None
             b = open(os.path.join(shipped, 'ffsm2', 'machine.hpp'), 'rb').read()
             info['join_identical'] = (a == b)
-            if a != b:
-                dv = os.path.join(work, 'devinc'); os.makedirs(os.path.join(dv, 'ffsm2'), exist_ok=True)
-                with open(os.path.join(dv, 'ffsm2', 'machine.hpp'), 'w') as f:
-                    f.write('#include "%s"\n' % os.path.join(REPO, 'development', 'ffsm2', 'machine_dev.hpp'))
-                v.append(('development', dv))
+            dv = os.path.join(work, 'devinc'); os.makedirs(os.path.join(dv, 'ffsm2'), exist_ok=True)
+            with open(os.path.join(dv, 'ffsm2', 'machine.hpp'), 'w') as f:
+                f.write('#include "%s"\n' % os.path.join(REPO, 'development', 'ffsm2', 'machine_dev.hpp'))
+            info['devinc'] = dv
+            if a != b: v.append(('development', dv))
             shutil.rmtree(sc, ignore_errors=True)
         except Exception as e:
             info['join_error'] = repr(e)
@@ -71,14 +71,24 @@ class Job:
         s.cbmc_extra = cbmc_extra or []; s.note = note
     def describe(s):
         return dict(name=s.name, harness=os.path.basename(s.harness), defines=s.defines, unwind=s.unwind, ub=s.ub,
-                    ir=s.olevel, std=s.std, product=[p[0] for p in s.product] if s.product else None)
+                    ir=s.olevel, std=s.std, product=[[p[0], p[1]] + list(p[2:]) for p in s.product] if s.product else None)
 
 PROP_RE = re.compile(r'^\[(?P<name>[^\]]+)\] line (?P<line>\d+) (?P<desc>.*): (?P<res>SUCCESS|FAILURE|UNKNOWN|ERROR)\s*$')
 
 def dflags(defs): return ['-D%s=%s' % (k, v) if v is not None and v != '' else '-D%s' % k for k, v in sorted(defs.items())]
 
+def cxx_flags(job):
+    return [f for f in CLANG_FLAGS if not (f == '-fno-rtti' and getattr(job, 'rtti', False))]
+
+def unit_inc(job, unit, inc):
+    """Product units may pin a header variant: (prefix, defines, 'shipped'|'development')."""
+    if len(unit) > 2 and unit[2]:
+        _, info = _variants
+        return os.path.join(REPO, 'include') if unit[2] == 'shipped' else info['devinc']
+    return inc
+
 def compile_ir(job, src, defs, inc, out_ll, olevel):
-    base = ['clang++-14', '-std=' + job.std] + CLANG_FLAGS + dflags(defs) + ['-I', inc, '-I', HARNESS, '-S', '-emit-llvm']
+    base = ['clang++-14', '-std=' + job.std] + cxx_flags(job) + dflags(defs) + ['-I', inc, '-I', HARNESS, '-S', '-emit-llvm']
     if olevel == 'O1':
         rc, out, _ = run(base + ['-O1', src, '-o', out_ll], timeout=600)
     else:
@@ -124,12 +134,13 @@ def build_native(job, wd, inc, exe, cxx='g++', cc='gcc', opt='-O1', san=None):
         if rc: return 'rt build failed: ' + out[-1500:]
         objs.append(o)
     units = job.product if job.product else [('', {})]
-    for i, (pfx, pdefs) in enumerate(units):
+    for i, unit in enumerate(units):
+        pfx, pdefs = unit[0], unit[1]
         d = dict(job.defines); d.update(pdefs)
         if job.product: d['VERIF_PREFIX'] = pfx
         o = os.path.join(wd, 'h%d-%s.o' % (i, os.path.basename(exe)))
         rc, out, _ = run([cxx, '-std=' + job.std, opt, '-w', '-fno-access-control', '-DFFSM2_VERIF'] + san + dflags(d) +
-                         ['-I', inc, '-I', HARNESS, '-c', src, '-o', o], timeout=600)
+                         ['-I', unit_inc(job, unit, inc), '-I', HARNESS, '-c', src, '-o', o], timeout=600)
         if rc: return 'native build failed: ' + out[-2000:]
         objs.append(o)
     rc, out, _ = run([cxx, opt, '-w'] + san + ['-o', exe] + objs, timeout=600)
@@ -158,7 +169,9 @@ def _translate(job, wd, tag, src, defs, inc, prefix=''):
     ll = os.path.join(wd, tag + '.ll'); c = os.path.join(wd, tag + '.c')
     compile_ir(job, src, defs, inc, ll, job.olevel)
     text = open(ll).read()
-    opts = dict(align=True, range=True, nsw=True)
+    # out-of-range shifts and nsw overflow only yield poison in LLVM; the optimizer speculates them, so they are asserted
+    # only on the unoptimised (-O0 + mem2reg) IR, where they still correspond one-to-one to source-level operations
+    opts = dict(align=True, range=True, poison=(job.olevel != 'O1'))
     if prefix: opts['prefix'] = prefix
     try:
         out, stats, M = ll2c.translate(text, opts)
@@ -173,9 +186,10 @@ def _run_variant(job, work, vname, inc, res, seed):
     src = job.harness if os.path.isabs(job.harness) else os.path.join(HARNESS, job.harness)
     cfiles = []; lltexts = []
     if job.product:
-        for (pfx, pdefs) in job.product:
+        for unit in job.product:
+            pfx, pdefs = unit[0], unit[1]
             d = dict(job.defines); d.update(pdefs); d['VERIF_PREFIX'] = pfx
-            c, text, st = _translate(job, wd, pfx.rstrip('_') or 'm', src, d, inc, prefix=pfx)
+            c, text, st = _translate(job, wd, pfx.rstrip('_') or 'm', src, d, unit_inc(job, unit, inc), prefix=pfx)
             cfiles.append(c); lltexts.append(text)
     else:
         c, text, st = _translate(job, wd, 'h', src, job.defines, inc)
@@ -189,7 +203,13 @@ def _run_variant(job, work, vname, inc, res, seed):
         rt = os.path.join(RT, 'native_rt.c')
         err = build_native(job, wd, inc, nat)
         if err: raise Inconclusive(err)
-        rc, out, _ = run(['gcc', '-O1', '-w', '-fno-strict-aliasing', '-fwrapv', '-I', RT] + ['-D%s=%s' % kv for kv in sorted(getattr(job, 'c_defines', {}).items())] + ['-o', tr] + cfiles + [rt] + extra, timeout=600)
+        tobjs = []
+        for i, cf in enumerate(cfiles + [rt] + extra):
+            o = os.path.join(wd, 'tr%d.o' % i)
+            rc, out, _ = run(['gcc', '-O1', '-w', '-fno-strict-aliasing', '-fwrapv', '-I', RT] + ['-D%s=%s' % kv for kv in sorted(getattr(job, 'c_defines', {}).items())] + ['-c', cf, '-o', o], timeout=600)
+            if rc: break
+            tobjs.append(o)
+        if rc == 0: rc, out, _ = run(['g++', '-w', '-o', tr] + tobjs, timeout=600)     # g++ only as the linker (typeinfo symbols when RTTI is on)
         if rc: raise Inconclusive('gcc build of translated C failed: ' + out[-2000:])
         a = run([nat, str(seed * 1000 + 1), str(job.seeds)], timeout=120)[1]
         b = run([tr, str(seed * 1000 + 1), str(job.seeds)], timeout=120)[1]
